@@ -46,6 +46,12 @@ def obligations(tier):
     obs.append(Ob(id='unknown_setting', module=M, func='unknown_setting', params='vi: int, oc: int', pre=['0 <= oc <= 1'],
                   group='scalar SET/RESET', timeout=T, bound='any int; SET / RESET of a name not in the spec'))
     # twins
+    obs.append(Ob(id='duration_codec', module=M, func='duration_roundtrip', params='neg: bool, hi: int, mi: int, si: int, ui: int',
+                  pre=['0 <= hi < 5 and 0 <= mi < 3 and 0 <= si < 3 and 0 <= ui < 6'], timeout=T, group='text codecs',
+                  bound='durations sign x hours {0,1,12,25,100000} x minutes {0,1,59} x seconds {0,1,59} x microseconds '
+                        '{0,1,100,250000,500000,999999}: ISO-8601, JSON and backend text forms read back to the same value'))
+    obs.append(Ob(id='memory_codec', module=M, func='memory_roundtrip', params='mi: int', pre=['0 <= mi < 10'], timeout=T,
+                  group='text codecs', bound='10 memory sizes around the unit boundaries'))
     obs.append(Ob(id='twin.scalar_op', module=M, func='scalar_op', params='vi: int, p1: bool', post='not _', expect='cex',
                   args='0, False, p1, True, 1, 2, 3, True, 0, 0, False, vi, False, "", 0', pre=['vi > 100'], timeout=60, group='twin'))
     obs.append(Ob(id='twin.object_ops', module=M, func='object_ops_idx', params='i0: int, i1: int', post='not _', expect='cex',
@@ -74,7 +80,8 @@ def run(tier, only=''):
         trusted_base=['the "most specific scope wins" model in the harness (15 lines)', 'CrossHair, z3'],
         assumptions=['the hand-built FlatSpec stands for the generated one (the real spec is loaded from the std schema, which '
                      'cannot be built here)'],
-        outside=['Duration / ConfigMemory text codecs (integer <-> decimal text: CrossHair realises the integer at str(); '
-                 'z3/cvc5 str.from_int time out) - not decided', 'to_edgeql -> re-parse (needs the parser)',
+        outside=['Duration / ConfigMemory text codecs beyond the structured finite family of the "text codecs" obligations (integer <-> '
+                 'decimal text is out of reach of CrossHair and of the string solvers: the values are chosen symbolically from a '
+                 'finite family and the codecs run natively)', 'to_edgeql -> re-parse (needs the parser)',
                  'compilation of CONFIGURE statements into operations (needs the std schema)', 'cfg:: object reflection'],
     )
